@@ -94,6 +94,14 @@ def fn_level_env(crate, fn, upto=None, hook=None):
                     env[s["pat"]["hid"]] = N.norm(s["init"])
                 except ValueError:
                     pass
+            elif ty.startswith("std::option::Option<") and "Mut)" not in str(s["pat"].get("mode")):
+                # `let decay = self.decay;`: an immutable alias of an optional configuration field
+                i0 = strip(s["init"])
+                if i0.get("k") == "field" and strip(i0["b"]).get("k") == "local":
+                    try:
+                        env[s["pat"]["hid"]] = e1.Rat.atom(e1.Norm(crate, env).place_name(i0))
+                    except ValueError:
+                        pass
     return env
 
 
